@@ -138,4 +138,70 @@ theorem cube_root_cube (d : ℝ) (hd : 0 ≤ d) : (d ^ 3) ^ ((1 : ℝ) / 3) = d 
   rw [e] at h
   exact h
 
+/-! ### the transcribed `masses_by_diameter` -/
+
+theorem zipWith_map_scaled (t s : ℝ) : ∀ (y M : List ℝ),
+    List.zipWith (· * ·) (y.map (fun x => x * t / s)) M = (List.zipWith (· * ·) y M).map ((t / s) * ·)
+  | [], _ => by simp
+  | _ :: _, [] => by simp
+  | y :: ys, m :: ms => by
+      simp only [List.map_cons, List.zipWith_cons_cons, zipWith_map_scaled t s ys ms]
+      congr 1
+      ring
+
+/-- `masses_by_diameter(de, T, P, yk) = (m_tot / Σ m) • m`, `m = masses(yk)` -/
+theorem massesByDiameter_eq (ρ : List ℝ → ℝ → ℝ → ℝ) (M : List ℝ) (de T P : ℝ) (yk : List ℝ) :
+    massesByDiameter ρ M de T P yk
+      = (masses M yk).map ((1 / 6 * pi * de ^ 3 * ρ (masses M yk) T P / (masses M yk).sum) * ·) := by
+  simp only [massesByDiameter, Num.real_sum, Num.real_npow, Num.real_ofSci]
+  rw [masses_eq, masses_eq, zipWith_map_scaled]
+  norm_num
+
+/-- mole fractions of `c • masses(yk)` are `yk / Σ yk` -/
+theorem molFrac_scaled_masses (c : ℝ) (M yk : List ℝ) (hl : yk.length = M.length)
+    (hM : ∀ x ∈ M, x ≠ 0) (hc : c ≠ 0) (hy : yk.sum ≠ 0) :
+    molFrac M ((masses M yk).map (c * ·)) = yk.map (· / yk.sum) := by
+  simp only [molFrac, Num.vdiv, Num.real_sum]
+  rw [masses_eq, vdiv_scaled_masses _ yk M hl hM, sum_map_mul_left, List.map_map]
+  apply List.map_congr_left
+  intro x _
+  simp only [Function.comp]
+  field_simp
+
+theorem map_div_one (l : List ℝ) : l.map (· / (1 : ℝ)) = l := by simp
+
+/-! ### component fluxes over lists of particle classes -/
+
+theorem compFlux_nil (j : Nat) : compFlux j ([] : List (IC ℝ)) = 0 := by
+  simp [compFlux]
+
+theorem compFlux_cons (j : Nat) (p : IC ℝ) (ps : List (IC ℝ)) :
+    compFlux j (p :: ps) = p.nb0 * p.m0.getD j 0 + compFlux j ps := by
+  simp [compFlux]
+
+theorem compFlux_append (j : Nat) (a b : List (IC ℝ)) :
+    compFlux j (a ++ b) = compFlux j a + compFlux j b := by
+  simp [compFlux]
+
+/-- component `j` of `nb0 • m0` -/
+theorem flux_getD (p : IC ℝ) (j : Nat) : (flux p).getD j 0 = p.nb0 * p.m0.getD j 0 := by
+  simp only [flux, Num.smul]
+  exact getD_map0 _ (by simp) _ _
+
+theorem smul_getD (c : ℝ) (l : List ℝ) (j : Nat) : (Num.smul c l).getD j 0 = c * l.getD j 0 := by
+  simp only [Num.smul]
+  exact getD_map0 _ (by simp) _ _
+
+/-! ### the fill time of the first element -/
+
+theorem fillTime_eq (A Q : ℝ) (hA : 0 ≤ A) :
+    fillTime A Q = A * (Real.sqrt (4 * A / pi) / 5) / Q := by
+  have hp := pi_pos
+  have hs : Real.sqrt (4 * A / pi) ^ 2 = 4 * A / pi := Real.sq_sqrt (by positivity)
+  simp only [fillTime, Num.real_ofSci, Num.real_npow, Num.real_sqrt]
+  norm_num
+  rw [div_pow, hs]
+  field_simp
+  ring
+
 end TamocV.Lemmas.C11
